@@ -551,12 +551,20 @@ func hkPopulations(thorough bool) (pops []hkCase, nva, nvc, nvs int, ageNames []
 			}
 		}
 	}
-	// every pair of entries from two different categories
-	for _, xy := range [][2][]hkEntry{{va, vc}, {va, vs}, {vc, vs}} {
-		for _, x := range xy[0] {
-			for _, y := range xy[1] {
-				pops = append(pops, hkCase{[]hkEntry{x, y}})
+	if thorough {
+		// every pair of entries from two different categories
+		for _, xy := range [][2][]hkEntry{{va, vc}, {va, vs}, {vc, vs}} {
+			for _, x := range xy[0] {
+				for _, y := range xy[1] {
+					pops = append(pops, hkCase{[]hkEntry{x, y}})
+				}
 			}
+		}
+	}
+	// every variant alone in an otherwise empty data directory
+	for _, variants := range [][]hkEntry{va, vc, vs} {
+		for _, x := range variants {
+			pops = append(pops, hkCase{[]hkEntry{x}})
 		}
 	}
 	bg := map[string][]hkEntry{
@@ -580,8 +588,18 @@ func hkPopulations(thorough bool) (pops []hkCase, nva, nvc, nvs int, ageNames []
 	// one population holding every variant of every category at once
 	var all hkCase
 	all.Entries = append(append(append(all.Entries, va...), vc...), vs...)
-	pops = append(pops, all)
 	sort.SliceStable(pops, func(i, j int) bool { return pops[i].key() < pops[j].key() })
+	// The all-at-once population goes first and the rest is interleaved across the
+	// sorted order, so that a run cut short by its time budget has still seen every
+	// variant and a spread of all categories.
+	stride := 97
+	spread := []hkCase{all}
+	for off := 0; off < stride; off++ {
+		for i := off; i < len(pops); i += stride {
+			spread = append(spread, pops[i])
+		}
+	}
+	pops = spread
 	return pops, len(va), len(vc), len(vs), ageNames
 }
 
@@ -647,7 +665,7 @@ func TestC43(t *testing.T) {
 		return
 	}
 	pops, nva, nvc, nvs, ageNames := hkPopulations(vr.Thorough())
-	r.Rule(fmt.Sprintf("populations of a temporary MUTAGEN_DATA_DIRECTORY run through the real housekeeping.Housekeep: (1) every pair of entries from two different categories (thorough: every triple, one entry per category) from %d agents x %d caches x %d staging entry variants; (2) every unordered pair (incl. twice the same) of variants within one category next to a fixed stale+fresh background in the other two; (3) all variants at once. Variants: plain entries with the decisive timestamp (agent binary atime; cache / staging-root mtime) at ages %v relative to the category threshold and every other timestamp fresh or ancient; entries that are symlinks to files/directories OUTSIDE the data directory and to relocated targets INSIDE it (target's decisive timestamp just below / just above the threshold x the link's OWN timestamps, set with utimensat(AT_SYMLINK_NOFOLLOW), fresh / ancient; the target's age decides); an agent binary that is a symlink to an outside file; staging roots containing a symlink to an outside directory; version directories without a binary; wrong-type entries; fixed ancient bystanders in sessions/archives/daemon/forwarding and outside. Non-trivial = the oracle demands at least one removal and at least one survival in the population; distinct by population.", nva, nvc, nvs, ageNames))
+	r.Rule(fmt.Sprintf("populations of a temporary MUTAGEN_DATA_DIRECTORY run through the real housekeeping.Housekeep: (1) every variant alone (thorough: also every pair of entries from two different categories and every triple, one entry per category) from %d agents x %d caches x %d staging entry variants; (2) every unordered pair (incl. twice the same) of variants within one category next to a fixed stale+fresh background in the other two; (3) all variants at once. Variants: plain entries with the decisive timestamp (agent binary atime; cache / staging-root mtime) at ages %v relative to the category threshold and every other timestamp fresh or ancient; entries that are symlinks to files/directories OUTSIDE the data directory and to relocated targets INSIDE it (target's decisive timestamp just below / just above the threshold x the link's OWN timestamps, set with utimensat(AT_SYMLINK_NOFOLLOW), fresh / ancient; the target's age decides); an agent binary that is a symlink to an outside file; staging roots containing a symlink to an outside directory; version directories without a binary; wrong-type entries; fixed ancient bystanders in sessions/archives/daemon/forwarding and outside. Non-trivial = the oracle demands at least one removal and at least one survival in the population; distinct by population.", nva, nvc, nvs, ageNames))
 	r.Assume("ages are measured against the real clock with a margin of at least 10 minutes (1 hour in quick) around the thresholds; the run of one population takes milliseconds",
 		"where the statement does not decide (stale staging root with fresh content, wrong-type entries, version directories without a binary) either outcome is accepted for the entry itself, but the outside world and all other entries are still judged strictly",
 		"not in a sidecar container (MUTAGEN_SIDECAR unset), POSIX, linux utimensat; access times are set explicitly and never disturbed before the run (no reads between setting and Housekeep)",
